@@ -41,7 +41,7 @@ fn single(body: Vec<Stmt>, extra: Vec<FuncDef>) -> Program {
 
 /// programs that end in a specific way
 fn template(c: &mut Choices) -> (String, Program) {
-    match c.draw(8) {
+    match c.draw(10) {
         0 => {
             // no arguments and no locals: the call stack fills up before the value stack
             let f = FuncDef { id: 1, name: "f".into(), module: vec![], params: vec![], body: vec![Stmt::Return(Expr::Call("f".into(), 1, vec![]))] };
@@ -77,6 +77,31 @@ fn template(c: &mut Choices) -> (String, Program) {
                 log_stmt(Expr::Len(Box::new(var("r")))),
             ];
             ("garbage_then_ok".into(), single(body, vec![]))
+        }
+        8 | 9 => {
+            // reads a global that this run never assigns (its only assignment is in a branch not
+            // taken); 0..5 other globals are declared before it, 0..2 of them assigned. What the read
+            // gives depends on nothing but this run, so a cleared VM must agree with a new one.
+            let before = c.draw(6);
+            let assigned = c.draw(3).min(before);
+            let mut dead = vec![];
+            let mut body = vec![log_stmt(int(8))];
+            for i in 0..before {
+                if i < assigned {
+                    body.push(Stmt::SetGlobal(format!("u{}", i), int(i as i64)));
+                } else {
+                    dead.push(Stmt::SetGlobal(format!("u{}", i), int(i as i64)));
+                }
+            }
+            dead.push(Stmt::SetGlobal("maybe".into(), int(1)));
+            body.push(Stmt::IfTrue(int(0), Box::new(Stmt::Composite(dead))));
+            body.push(Stmt::SetGlobal("r".into(), var("maybe")));
+            let mut p = single(body, vec![]);
+            p.globals.push("maybe".into());
+            for i in 0..before {
+                p.globals.push(format!("u{}", i));
+            }
+            ("reads_unassigned_global".into(), p)
         }
         _ => {
             // leaves an open upvalue and a closure in a global
@@ -148,6 +173,8 @@ struct After {
     next_gc: usize,
     collections: u64,
     stack: usize,
+    /// which of the program's globals the host finds defined after the run
+    defined: Vec<bool>,
 }
 
 fn make_vm(limit: usize) -> Vm<'static, Host> {
@@ -169,6 +196,7 @@ fn run_once(vm: &mut Vm<'static, Host>, prog: &CaoCompiledProgram, globals: &[St
         next_gc,
         collections: verif::alloc_hooks(&vm.runtime_data).collections,
         stack: inspect::value_stack_len(&vm.runtime_data),
+        defined: globals.iter().map(|g| vm.read_var_by_name(g, &prog.variables).is_some()).collect(),
     };
     (obs, after)
 }
@@ -193,7 +221,7 @@ impl Property for C17 {
         "C17"
     }
     fn rule(&self) -> &'static str {
-        "case = 1-3 programs (generated well-scoped programs and 8 templates ending in CallStackOverflow / Stackoverflow / Timeout / OutOfMemory / native error / error inside a native->script callback with an open upvalue / success after > threshold garbage / closure with open upvalue left in a global) and either a history of 2-40 steps run(program, budget in {50,400,3000,100000}) / clear / set_memory_limit({24K,64K,400K,4M}) on ONE VM, or a repetition class: the first program run n in {3,17,100,258,300} times with or without clear in between. Oracles: a run directly after clear / set_memory_limit / VM creation is replayed on a new VM with the same limit and budget: observation, dispatched instructions, allocated bytes, next collection threshold, number of collections and value-stack height after the run must be equal; the history executed twice yields identical observation sequences; repetition: every run equals the first (without clear only for programs whose first run succeeded and left the value stack empty). non-trivial = a checked step follows a run that ended in an error or collected, or a repetition with n >= 257; distinct by hash of the decoded case"
+        "case = 1-3 programs (generated well-scoped programs and 9 templates: a read of a global whose only assignment is in a branch not taken, and programs ending in CallStackOverflow / Stackoverflow / Timeout / OutOfMemory / native error / error inside a native->script callback with an open upvalue / success after > threshold garbage / closure with open upvalue left in a global) and either a history of 2-40 steps run(program, budget in {50,400,3000,100000}) / clear / set_memory_limit({24K,64K,400K,4M}) on ONE VM, or a repetition class: the first program run n in {3,17,100,258,300} times with or without clear in between. Oracles: a run directly after clear / set_memory_limit / VM creation is replayed on a new VM with the same limit and budget: observation, dispatched instructions, allocated bytes, next collection threshold, number of collections, value-stack height and the set of globals the host finds defined after the run must be equal; the history executed twice yields identical observation sequences; repetition: every run equals the first (without clear only for programs whose first run succeeded and left the value stack empty). non-trivial = a checked step follows a run that ended in an error or collected, or a repetition with n >= 257; distinct by hash of the decoded case"
     }
     fn assumptions(&self) -> Vec<String> {
         vec![
